@@ -10,6 +10,7 @@ import (
 	"io"
 	"net/http"
 	"sync"
+	"sync/atomic"
 )
 
 // Request is one logged HTTP request.
@@ -75,6 +76,34 @@ func (Zeros) Read(p []byte) (int, error) {
 	for i := range p {
 		p[i] = 0
 	}
+	return len(p), nil
+}
+
+// Endless is a body that never ends by itself: Prefix, then zero bytes for ever. The harness needs a horizon, so after Horizon
+// bytes Read fails with ErrHorizon and *Overrun is set: a reader that got that far was not bounding its read.
+type Endless struct {
+	Prefix  []byte
+	Horizon int64
+	Overrun *int32
+	n       int64
+}
+
+// ErrHorizon ends an Endless body at the harness's horizon.
+var ErrHorizon = errors.New("netsim: endless body cut at the harness horizon")
+
+func (e *Endless) Read(p []byte) (int, error) {
+	if e.n >= e.Horizon {
+		atomic.StoreInt32(e.Overrun, 1)
+		return 0, ErrHorizon
+	}
+	k := 0
+	if e.n < int64(len(e.Prefix)) {
+		k = copy(p, e.Prefix[e.n:])
+	}
+	for i := k; i < len(p); i++ {
+		p[i] = 0
+	}
+	e.n += int64(len(p))
 	return len(p), nil
 }
 
